@@ -920,10 +920,89 @@ def monitor_real(ctx, i, rng, cell, gdim, itype):
         ctx.sample({"mode": "real", "outcome": "accepted", **desc, "input": safe_str(obj, 240), "output": safe_str(out, 240)}, limit=1)
 
 
+def monitor_pipeline(ctx, rng):
+    """What compute_form_data DELIVERS: comparisons and complex nodes that later passes create (the derivative of abs is
+    sign(.), a conditional; integral scaling multiplies by abs(detJ), which a shape derivative differentiates) come after
+    the comparison check / may come after the real-mode clean-up.
+    complex mode: no ordering comparison, min or max over an operand that is complex in a complex world is delivered;
+    real mode:    no Conj / Real / Imag node is delivered."""
+    from ufl.algorithms import compute_form_data
+
+    cell, gdim = rng.choice([("interval", 1), ("triangle", 2), ("triangle", 2), ("tetrahedron", 3)])
+    cplx = rng.random() < 0.55
+    U = Universe(rng, cell, gdim, "cell", cplx)
+    G = Gen(U, rng, cplx=cplx, deriv=0, cond=False, math=rng.random() < 0.5, geom=False)
+    f, g = U.coef("P2", 0), U.coef("P1", 1)
+    x = U.x
+    try:
+        h = rng.choice([lambda: f, lambda: f * g + G.expr((), 1), lambda: G.expr((), 1) * f, lambda: f * f - g])()
+        kind = rng.choice(["gateaux-abs", "gateaux-abs-arg", "grad-abs", "second-abs", "shape", "shape-abs-x"])
+        if kind == "gateaux-abs":
+            form = ufl.derivative(abs(h) * g * ufl.dx(domain=U.mesh), f, U.coef("P2", 2))
+        elif kind == "gateaux-abs-arg":
+            form = ufl.derivative(ufl.inner(abs(h), U.arg("P2", 0)) * ufl.dx(domain=U.mesh), f, U.arg("P2", 1))
+        elif kind == "grad-abs":
+            form = ufl.grad(abs(h))[0] * g * ufl.dx(domain=U.mesh)
+        elif kind == "second-abs":
+            form = ufl.derivative(ufl.derivative(abs(h) * h * ufl.dx(domain=U.mesh), f, U.coef("P2", 2)), f, U.coef("P2", 3))
+        elif kind == "shape":
+            form = ufl.derivative(h * h * ufl.dx(domain=U.mesh), x, U.coef("P1v", 0))
+        else:
+            form = ufl.derivative(abs(x[0] - 0.5) * h * ufl.dx(domain=U.mesh), x, U.coef("P1v", 0))
+        shape = kind.startswith("shape")
+        fd = compute_form_data(form, complex_mode=cplx, do_apply_function_pullbacks=shape, do_apply_geometry_lowering=shape,
+                               do_apply_integral_scaling=shape, do_estimate_degrees=False)
+        outs = [itg.integrand() for ida in fd.integral_data for itg in ida.integrals]
+    except (Exception, ufl.algorithms.check_arities.ArityMismatch, ComplexComparisonError) as ex:
+        ctx.count("pipeline_rejected")
+        ctx.covered("pipeline_rejected_with", type(ex).__name__ + ": " + str(ex)[:50])
+        return
+    ctx.count("pipeline_cases")
+    mode = "complex" if cplx else "real"
+    if not cplx:
+        left = sorted({c for o in outs for c in classes_in(o)} & {"Conj", "Real", "Imag"})
+        ctx.count("pipeline_real_checked")
+        if left:
+            ctx.violation(f"C23/pipeline/real-mode-delivers-complex-node/{left[0]}/{kind}",
+                          f"compute_form_data(complex_mode=False) delivers an integrand that still contains {left} ({kind})",
+                          {"form": str(form)[:600], "delivered": str(outs[0])[:900]})
+        else:
+            ctx.count("pipeline_real_held")
+            ctx.covered("pipeline_kinds_held", mode + ":" + kind)
+        return
+    try:
+        cworlds = complex_worlds(rng, cell, gdim, "cell", [])
+    except Unsupported:
+        ctx.count("world_unsupported")
+        return
+    ok = True
+    for o in outs:
+        for gnode, side in guards_in(o):
+            for op in gnode.ufl_operands:
+                st, w, rel = operand_status(op, side, cworlds)
+                ctx.count("pipeline_operands_checked")
+                if st == "complex":
+                    ok = False
+                    ctx.violation(f"C23/pipeline/complex-operand-under-{type(gnode).__name__}/delivered/{kind}",
+                                  f"compute_form_data(complex_mode=True) delivers {type(gnode).__name__} over an operand that is complex (relative imaginary "
+                                  f"part {rel:.3g}) for complex data: {str(op)[:160]} ({kind})",
+                                  {"form": str(form)[:600], "delivered": str(o)[:900]})
+                    break
+            if not ok:
+                break
+        if not ok:
+            break
+    if ok:
+        ctx.count("pipeline_complex_held")
+        ctx.covered("pipeline_kinds_held", mode + ":" + kind)
+
+
 def case(ctx, i, rng):
     if i < 0:
         run_probes(ctx, [PROBE_INPUTS[-1 - i]])
         return
+    if rng.random() < 0.06:
+        return monitor_pipeline(ctx, rng)
     cell, gdim = rng.choice(CELLS)
     itype = "interior_facet" if rng.random() < 0.15 else "cell"
     if i % 5 < 3:
